@@ -85,7 +85,57 @@ def build_ls():
     return os.path.join(tdir, "debug", "parol-ls")
 
 
+PV_CHUNK = int(os.environ.get("PV_CHUNK", "12000"))
+
+
 def pv(args, timeout=3600, stdin=None, env=None):
+    """runs the harness; long vector files are replayed in several processes one after the other (the
+    dynamic run-time leaks the tables of every grammar it builds, so one process per 12 000 vectors
+    bounds the memory) and the outputs are merged"""
+    if len(args) >= 4 and args[0] == "replay":
+        vec, outp = args[2], args[3]
+        with open(vec) as f:
+            n = sum(1 for _ in f)
+        if n > PV_CHUNK:
+            summ = {"vectors": 0, "evaluations": 0, "nontrivial": 0, "tags": {}, "mismatches": 0, "trace_events": 0}
+            with open(vec) as f, open(outp + ".merge", "w") as mo, open(outp + ".trace.merge", "w") as mt:
+                off = 0
+                ci = 0
+                while True:
+                    lines = [l for _, l in zip(range(PV_CHUNK), f)]
+                    if not lines:
+                        break
+                    cv, co = f"{vec}.chunk", f"{outp}.chunk"
+                    with open(cv, "w") as g:
+                        g.writelines(lines)
+                    _pv1([args[0], args[1], cv, co] + args[4:], timeout, stdin, env)
+                    for l in open(co):
+                        r = json.loads(l)
+                        if "summary" in r:
+                            for k, v in r["summary"].items():
+                                if k == "tags":
+                                    for t, c in v.items():
+                                        summ["tags"][t] = summ["tags"].get(t, 0) + c
+                                else:
+                                    summ[k] = summ.get(k, 0) + v
+                        else:
+                            if isinstance(r.get("case"), int):
+                                r["case"] += off
+                            mo.write(json.dumps(r) + "\n")
+                    with open(co + ".trace") as t:
+                        shutil.copyfileobj(t, mt)
+                    for x in (cv, co, co + ".trace"):
+                        os.remove(x)
+                    off += len(lines)
+                    ci += 1
+                mo.write(json.dumps({"summary": summ}) + "\n")
+            os.replace(outp + ".merge", outp)
+            os.replace(outp + ".trace.merge", outp + ".trace")
+            return ""
+    return _pv1(args, timeout, stdin, env)
+
+
+def _pv1(args, timeout=3600, stdin=None, env=None):
     e = dict(os.environ)
     if env:
         e.update({k: str(v) for k, v in env.items()})
